@@ -52,6 +52,7 @@ class World:
         self.drivers = dict(zip(CONFIGS, tus[:4]))
         self.tasksys, self.scheduler, self.witness, self.witness_tbb = tus[4:8]
         self.tag = '' if std == 'c++11' else ' ' + std
+        self.byref_wrappers = {}   # (tu, record id) -> (field name, type): task wrappers that hold the closure by reference
         self.submit = {}     # q -> exit counts
         self.joinfn = {}     # q -> bool (joins on every path)
         self.ha = None
@@ -163,6 +164,9 @@ def check_wrapper(ctx, W, tu, rec, ctor, pidx, seen):
     if cfield is None:
         ctx.undecided(R1, inst, 'cannot see which member of the task wrapper stores the closure', loc)
         return 1
+    fct = [x['ct'] for x in rec.get('fields', []) if x['id'] == cfield[0]]
+    if fct and fct[0].rstrip().endswith('&'):
+        W.byref_wrappers[key0] = (cfield[1], fct[0])
     bad = False
     if setsize is None:
         ctx.undecided(R1, inst, 'cannot evaluate the set size passed to enki::ITaskSet', loc)
@@ -307,6 +311,7 @@ def check_handoff(ctx, W, roots):
     work = list(roots)
     n = 0
     names = {}
+    records = []
     while work:
         tu, f, pidx = work.pop()
         k = (id(tu), f['id'], pidx)
@@ -327,6 +332,7 @@ def check_handoff(ctx, W, roots):
                 work.append((tu, e['callee'], e['pidx']))
         for rec, ctor, pi, node in h.wrappers:
             n += check_wrapper(ctx, W, tu, rec, ctor, pi, wseen)
+        records.append((tu, f, pidx, h, inst, name, file))
         for u in h.undecided:
             ctx.undecided(R1, inst, u, tu.fn_loc(f))
         bad = False
@@ -358,6 +364,48 @@ def check_handoff(ctx, W, roots):
         if not bad and not h.undecided:
             ctx.ok(R1, inst, 'closure handed off exactly once on every path: %s' % ', '.join(
                 '%s at %s' % (e['kind'], tu.loc(e['node'])) for e in h.events), tu.fn_loc(f))
+    # ---- a heap task that outlives the hand-off must not refer to an object that dies when the hand-off function returns
+    retains = {}       # (tu, fn id, pidx) -> text: the function keeps a reference to its closure argument beyond its return
+    for tu, f, pidx, h, inst, name, file in records:
+        for rec, ctor, pi, node in h.wrappers:
+            br = W.byref_wrappers.get((id(tu), rec['id']))
+            heap = False
+            p = tu.par(node)
+            hops = 0
+            while p is not None and hops < 4:
+                if p.get('kind') == 'CXXNewExpr':
+                    heap = True
+                p = tu.par(p)
+                hops += 1
+            if br and heap:
+                retains[(id(tu), f['id'], pidx)] = 'its heap task stores the closure as `%s %s` (%s)' % (br[1], br[0], tu.loc(node))
+    for _ in range(4):
+        for tu, f, pidx, h, inst, name, file in records:
+            ptype = f['params'][pidx]['ct']
+            if not ptype.rstrip().endswith('&'):
+                continue
+            for e in h.events:
+                if e['kind'] == 'fwd' and (id(tu), e['callee']['id'], e['pidx']) in retains and (id(tu), f['id'], pidx) not in retains:
+                    retains[(id(tu), f['id'], pidx)] = 'it forwards the closure to %s, and %s' % (
+                        short_name(e['callee']['q']), retains[(id(tu), e['callee']['id'], e['pidx'])])
+    for tu, f, pidx, h, inst, name, file in records:
+        ptype = f['params'][pidx]['ct']
+        if ptype.rstrip().endswith('&'):
+            continue            # the referent belongs to the caller: judged there
+        why = None
+        if (id(tu), f['id'], pidx) in retains:
+            why = retains[(id(tu), f['id'], pidx)]
+            at = tu.fn_loc(f)
+        for e in h.events:
+            if e['kind'] == 'fwd' and (id(tu), e['callee']['id'], e['pidx']) in retains:
+                why = 'it passes `%s` as an lvalue / reference to %s (%s), and %s' % (
+                    f['params'][pidx]['name'], short_name(e['callee']['q']), tu.loc(e['node']), retains[(id(tu), e['callee']['id'], e['pidx'])])
+                at = tu.loc(e['node'])
+        if why:
+            ctx.violation(R1, inst, 'the closure `%s` is a by-value parameter of %s and dies when it returns, but the task that runs later '
+                          'only holds a reference to it: %s. The worker then calls a destroyed closure in a dead stack frame (closures '
+                          'owning heap state: use after free)' % (f['params'][pidx]['name'], name, why), at,
+                          key='%s|%s|%s|closure-referenced-after-return' % (R1, file, name))
     return n, names
 
 
@@ -965,7 +1013,18 @@ def check_result_protocol(ctx, W, o, joiner):
             return [st]
         if joiner.is_join_call(o, x):
             return [True]
-        if x.get('kind') == 'MemberExpr' and member_of_this(tu, x) == res and not st:
+        if not st and x.get('kind') == 'CXXMemberCallExpr':
+            sd0, obj0, args0 = tu.call_parts(x)
+            c0 = tu.callee_fn(x)
+            if obj0 is not None and X.is_this_expr(tu, obj0) and c0 is not None and c0.get('recid') == rec['id'] \
+                    and tu.cfg(c0) is not None and c0['id'] not in gbusy and c0['id'] != getf['id']:
+                # an own method after which, on every path, the flag was seen true or the task was joined
+                gbusy.add(c0['id'])
+                sub, _r0 = X.exit_states(tu.cfg(c0), [False], gtransfer, grefine)
+                gbusy.discard(c0['id'])
+                if sub and all(sub):
+                    return [True]
+        if x.get('kind') == 'MemberExpr' and member_of_this(tu, x) == res and not st and not gbusy:
             gproblems.append(('get-unsynchronised', 'get() reads the result `%s` at %s on a path where neither the completion flag '
                               'was seen true nor the task was waited for: it can return a value that is not (completely) written yet'
                               % (resn, tu.loc(x)), tu.loc(x)))
@@ -979,6 +1038,7 @@ def check_result_protocol(ctx, W, o, joiner):
                 if truth:
                     return [True]
         return [st]
+    gbusy = set()
     X.exit_states(gg, [joiner.trivially_joined(o)], gtransfer, grefine)
     gunf = joiner.unfollowed(o, getf) if gproblems else []
     if gunf:
@@ -1322,8 +1382,30 @@ def check_wait_before_release(ctx, W, o, J, verdicts=None):
         for kind, text, loc in sorted(set(problems)):
             ctx.violation(R4, inst, text, loc, key='%s|%s|%s|%s' % (R4, tu.fn_file(d), short_name(d['q']), kind))
         if unjoined:
+            flagtests = []
+            seenf = set()
+
+            def scan(fn, depth=0):
+                if fn['id'] in seenf or depth > 4 or tu.cfg(fn) is None:
+                    return
+                seenf.add(fn['id'])
+                g2 = tu.cfg(fn)
+                for blk in g2.blocks.values():
+                    if blk.cond and flag_read(tu, rec, tu.node(blk.cond)) is not None:
+                        flagtests.append('%s (%s)' % (short_name(fn['q']), tu.loc(blk.cond)))
+                for b2, i2, y in g2.stmts():
+                    if y.get('kind') == 'CXXMemberCallExpr':
+                        sd2, obj2, a2 = tu.call_parts(y)
+                        c2 = tu.callee_fn(y)
+                        if obj2 is not None and X.is_this_expr(tu, obj2) and c2 is not None and c2.get('recid') == rec['id']:
+                            scan(c2, depth + 1)
+            scan(d)
+            extra = (' The join is skipped when a completion flag is already set (test in %s): that flag is stored from inside the task, '
+                     'which is still running -- returning from the closure, backend bookkeeping -- when it becomes true, so seeing it '
+                     'true is not a join.' % ', '.join(sorted(set(flagtests)))) if flagtests else ''
             ctx.violation(R4, inst, 'the destructor returns on some path without waiting for the task its constructor started (%s): '
-                          'the task keeps running and writes into the destroyed object' % how, tu.fn_loc(d),
+                          'the task keeps running and writes into the destroyed object (TBB: ~task_group with an unwaited task; '
+                          'std::thread: joinable thread destroyed; enkiTS: running count decremented in freed memory).%s' % (how, extra), tu.fn_loc(d),
                           key='%s|%s|%s|no-wait' % (R4, tu.fn_file(d), short_name(d['q'])))
     return 1
 
@@ -2866,6 +2948,133 @@ def check_thread_index(ctx, W, info, verdicts=None):
     return n
 
 
+# ================================================================================================
+#  R-C02-10 no task object (closure destructor = user code that may call schedule()) is destroyed under a lock that the
+#           scheduling entry points take themselves
+# ================================================================================================
+R10 = 'R-C02-10'
+
+
+def lock_var_mutex(tu, vd):
+    """mutex access path if vd declares a std::lock_guard / unique_lock / scoped_lock"""
+    t = (vd.get('type', {}).get('desugaredQualType') or vd.get('type', {}).get('qualType', ''))
+    if not any(t.startswith(l) or ('std::' + t).startswith(l) for l in LOCK_TYPES):
+        return None
+    for z in tu.walk(vd):
+        if z.get('kind') in ('DeclRefExpr', 'MemberExpr') and 'mutex' in (z.get('type', {}).get('qualType', '')):
+            ap = X.access_path(tu, z)
+            if ap is not None:
+                return ap
+    return ('?',)
+
+
+def task_deletes_in(tu, node):
+    out = []
+    for y in tu.walk(node):
+        if y.get('kind') == 'CXXDeleteExpr' and not y.get('isArray') and tu.kids(y):
+            op = core(tu, tu.kids(y)[0])
+            t = tu.sd(op).get('ct', '') if op is not None else ''
+            if any(r is not None and X.derived_from(tu, r, X.ENKI_COMPLETABLE) for r in X.record_of_type(tu, t)):
+                out.append(y)
+    return out
+
+
+def check_delete_under_lock(ctx, W, tu, only_prefix=None, verdicts=None):
+    fns = [f for f in tu.functions.values() if not f['dep'] and tu.cfg(f) is not None and
+           (only_prefix is None or f['q'].startswith(only_prefix)) and (only_prefix is not None or tu.fn_file(f).endswith('TaskSys.cpp'))]
+    lockers = {}        # mutex path -> set of function q that lock it
+    hits = {}           # fn q -> [(delete node, mutex path, via)]
+    memo = {}
+
+    def run(fn, st0, depth=0):
+        key = (fn['id'], st0)
+        if key in memo or depth > 3:
+            return
+        memo[key] = True
+        g = tu.cfg(fn)
+        lockvars = {}
+        top = fn
+
+        def transfer(blk, idx, e, st):
+            if e[0] == 'AD':
+                return [frozenset(x for x in st if x[0] != e[1])]
+            if e[0] != 'S':
+                return [st]
+            y = tu.node(e[1])
+            if y is None:
+                return [st]
+            k = y.get('kind')
+            if k == 'DeclStmt':
+                for vd in tu.kids(y):
+                    m = lock_var_mutex(tu, vd) if vd.get('kind') == 'VarDecl' else None
+                    if m is not None:
+                        lockers.setdefault(m, set()).add(fn['q'])
+                        lockvars[vd['id']] = m
+                        # std::defer_lock etc. are not modelled: the lock is assumed taken
+                        return [st | frozenset([(vd['id'], m)])]
+                return [st]
+            if k == 'CXXMemberCallExpr':
+                sd, obj, args = tu.call_parts(y)
+                nm = sd.get('q', '').split('::')[-1]
+                v = decl_ref(tu, obj) if obj is not None else None
+                if v in lockvars and nm == 'unlock':
+                    return [frozenset(x for x in st if x[0] != v)]
+                if v in lockvars and nm == 'lock':
+                    return [st | frozenset([(v, lockvars[v])])]
+            if st:
+                if k == 'CXXDeleteExpr':
+                    for dn in task_deletes_in(tu, y):
+                        for lv, m in st:
+                            hits.setdefault(fn['q'], []).append((dn, m, None))
+                if k == 'LambdaExpr':
+                    p = tu.par(y)
+                    hops = 0
+                    while p is not None and hops < 8 and p.get('kind') not in X.CALLS + ('VarDecl',):
+                        p = tu.par(p)
+                        hops += 1
+                    if p is not None and p.get('kind') in X.CALLS:
+                        body = tu.kids(y)[-1] if tu.kids(y) else None
+                        for dn in (task_deletes_in(tu, body) if body is not None else []):
+                            for lv, m in st:
+                                hits.setdefault(fn['q'], []).append((dn, m, 'in the lambda passed to %s' % (tu.sd(p).get('q') or '?')))
+                if k in ('CallExpr', 'CXXMemberCallExpr'):
+                    c = tu.callee_fn(y)
+                    if c is not None and tu.cfg(c) is not None and not c['dep'] and tu.fn_file(c) == tu.fn_file(fn) and c['id'] != fn['id']:
+                        before = {q: len(v) for q, v in hits.items()}
+                        run(c, st, depth + 1)
+                        for dn, m, via in list(hits.get(c['q'], []))[before.get(c['q'], 0):]:
+                            hits.setdefault(fn['q'], []).append((dn, m, 'in %s called at %s' % (short_name(c['q']), tu.loc(y))))
+            return [st]
+        X.exit_states(g, [st0], transfer)
+    for f in fns:
+        run(f, frozenset())
+    n = 0
+    for f in sorted(fns, key=lambda f: f['q']):
+        locked_here = any(f['q'] in qs for qs in lockers.values())
+        if not locked_here and f['q'] not in hits:
+            continue
+        n += 1
+        name = short_name(f['q'])
+        inst = '[%s] %s' % (tu.config, f['q'].replace('rkcommon::tasking::', '')) + W.tag
+        hs = [h for h in hits.get(f['q'], [])]
+        # the lock matters if code reachable from user code (any non-static function of the unit) takes the same mutex
+        bad = [(dn, m, via) for dn, m, via in hs if lockers.get(m)]
+        if verdicts is not None:
+            verdicts.append((name, bool(bad)))
+            continue
+        if bad:
+            dn, m, via = bad[0]
+            ctx.violation(R10, inst, 'the task object `%s` is deleted at %s%s while the mutex locked in this function is held; deleting a '
+                          'task destroys its closure, i.e. runs user code, and a closure (or the state it owns) whose destructor calls '
+                          'schedule()/async() re-enters %s on the same thread and blocks forever on the non-recursive mutex; every later '
+                          'schedule() then blocks too. Destroy tasks outside of the lock'
+                          % (tu.show(tu.kids(dn)[0]), tu.loc(dn), (' ' + via) if via else '', ', '.join(sorted(short_name(q) for q in lockers[m]))),
+                          tu.loc(dn), key='%s|%s|%s|task-deleted-under-lock' % (R10, tu.fn_file(f), name))
+        else:
+            ctx.ok(R10, inst, 'no task object is destroyed while a lock is held', tu.fn_loc(f))
+    return n
+
+
 def check_wait_drains(ctx, W):
     """TaskScheduler::WaitforTask(p) returns, for p != null, only after p's running count was read as zero"""
     tu = W.scheduler
@@ -2945,7 +3154,9 @@ EXPECT_OVERRIDES = {'rkverif::c02w::SelfDelete::ExecuteRange': True, 'rkverif::c
                     'rkverif::c02w::ViaHelper::ExecuteRange': True, 'rkverif::c02w::KeepsItself::ExecuteRange': False}
 EXPECT_DELETES = {'rkverif::c02w::reapGuarded': False, 'rkverif::c02w::reapAfterWait': False,
                   'rkverif::c02w::reapUnguarded': True, 'rkverif::c02w::neverScheduled': False,
-                  'rkverif::c02w::sweepThenSchedule': False}   # guarded, hence fine for (iii); (iv) flags its order
+                  'rkverif::c02w::sweepThenSchedule': False,   # guarded, hence fine for (iii); (iv) flags its order
+                  'rkverif::c02w::reapUnderLock': False, 'rkverif::c02w::reapLambdaUnderLock::<closure>': False,
+                  'rkverif::c02w::reapOutsideLock': False, 'rkverif::c02w::reapAfterUnlock': False}   # guarded; R-C02-10 judges the lock
 EXPECT_ORDER = {('rkverif::c02w::StartsTooEarly', 'result'): True, ('rkverif::c02w::StartsTooEarly', 'done'): False,
                 ('rkverif::c02w::StartsLast', 'result'): False, ('rkverif::c02w::StartsLast', 'done'): False,
                 ('rkverif::c02w::NeverWaits', 'result'): False, ('rkverif::c02w::NeverWaits', 'done'): False,
@@ -2955,6 +3166,8 @@ EXPECT_PUBLISH = {'rkverif::c02w::publishThenSchedule': True, 'rkverif::c02w::sc
                   'rkverif::c02w::sweepThenSchedule': True}
 EXPECT_RESULT_USE = {'rkverif::c02w::MovesOut': 'result-moved-out', 'rkverif::c02w::Copies': None}
 EXPECT_RUN = {'rkverif::c02w::detachedRun': False, 'rkverif::c02w::runAndWait': True, 'rkverif::c02w::runMaybeWait': False}
+EXPECT_LOCKED_DELETE = {'rkverif::c02w::reapUnderLock': True, 'rkverif::c02w::reapLambdaUnderLock': True,
+                        'rkverif::c02w::reapOutsideLock': False, 'rkverif::c02w::reapAfterUnlock': False}
 EXPECT_REINIT = {'rkverif::c02w::reinitKeepsScheduler': True, 'rkverif::c02w::reinitFresh': False, 'rkverif::c02w::reinitDrained': False}
 EXPECT_HANDSHAKE = {'rkverif::c02w::Handshake::sleepRegisteredFirst': False, 'rkverif::c02w::Handshake::sleepCheckedFirst': True,
                     'rkverif::c02w::Handshake::sleepUnregistered': True, 'rkverif::c02w::Handshake::publishThenWake': False,
@@ -3025,6 +3238,11 @@ def check_witness(ctx, W, active_unused=None):
         if got != EXPECT_REINIT:
             bad.append('drain-before-discard detector: expected %s, got %s' % (EXPECT_REINIT, got))
     v = []
+    check_delete_under_lock(ctx, W, tu, only_prefix='rkverif::c02w::', verdicts=v)
+    got = {k: c for k, c in v}
+    if got != EXPECT_LOCKED_DELETE:
+        bad.append('delete-under-lock detector: expected %s, got %s' % (EXPECT_LOCKED_DELETE, got))
+    v = []
     check_wake_protocol(ctx, W, tu, verdicts=v)
     got = {k: c for k, c in v if k.startswith('rkverif::c02w::Handshake::')}
     if got != EXPECT_HANDSHAKE:
@@ -3073,6 +3291,7 @@ def run_world(ctx, W):
         check_task_deletes(ctx, W, tu, handled if tu is tui else set())
         check_publication_order(ctx, W, tu)
     n7s, n7p = check_wake_protocol(ctx, W, W.scheduler)
+    n10 = check_delete_under_lock(ctx, W, W.tasksys)
     info = classify_scheduler(ctx, W)
     n8 = n9 = 0
     if info is None or not info['drains']:
@@ -3082,7 +3301,7 @@ def run_world(ctx, W):
         n8 = check_scheduler_teardown(ctx, W, info) + check_drain_before_discard(ctx, W, [W.tasksys], info)
         n9 = check_thread_index(ctx, W, info)
     check_witness(ctx, W)
-    return dict(n9=n9, n8=n8, n7s=n7s, n7p=n7p, n1=n1 + n_sub, names=names, n2=n2, n3=n3, n4=n4, n5=n5, n6=n6, nsites=nsites)
+    return dict(n10=n10, n9=n9, n8=n8, n7s=n7s, n7p=n7p, n1=n1 + n_sub, names=names, n2=n2, n3=n3, n4=n4, n5=n5, n6=n6, nsites=nsites)
 
 
 def floors(ctx, r, tag=''):
@@ -3099,6 +3318,7 @@ def floors(ctx, r, tag=''):
     ctx.floor(R5, r['n5'], 8, 'async<IntJob>, async<StringJob&> x 4 backends' + tag)
     ctx.floor(R6, r['n6'], 5, 'ExecuteRange overrides: schedule_internal x 3, AsyncTaskImpl, parallel_for_internal' + tag)
     ctx.floor(R6, r['nsites'], 2, 'ExecuteRange call sites in TaskScheduler.cpp: 3' + tag)
+    ctx.floor(R10, r['n10'], 1, 'functions of TaskSys.cpp that take the detached-task mutex: scheduleDetachedTaskInternal' + tag)
     ctx.floor(R9, r['n9'], 1, 'thread-local pipe index variables used for writer-side pipe operations: gtl_threadNum' + tag)
     ctx.floor(R8, r['n8'], 2, 'scheduler destructor + initTaskSystemInternal' + tag)
     ctx.floor(R7, r['n7s'], 1, 'functions of the scheduler that block on the new-task semaphore: WaitForTasks' + tag)
@@ -3121,6 +3341,8 @@ def run(ctx):
     ctx.assume('tbb::task_arena::enqueue, tbb::task_group::run, std::thread and the enkiTS pipe invoke a submitted callable exactly once '
                '(backend contract; the enkiTS partition/pipe bookkeeping is the subject of C01/C12)')
     ctx.assume('std::packaged_task / std::future deliver the value of the invoked callable (standard library contract)')
+    ctx.describe(R10, 'no task object is destroyed (closure destructor = user code that may call schedule()) while a mutex is held that the '
+                      'scheduling entry points lock themselves')
     ctx.describe(R9, 'who may write a single-writer pipe: every thread that can reach a writer-side pipe operation through a public entry '
                      'point owns a distinct pipe index (assigned by the scheduler, on first use, or serialised by a lock)')
     ctx.describe(R8, 'queued tasks are drained (run until all pipes are empty) before the scheduler\'s pipes are discarded: the destructor '
